@@ -7,6 +7,7 @@ from importlib import import_module
 from typing import Any, Callable, Final, Iterator, Union, Tuple
 
 _MISSING: Final[object] = object()
+_INHERITED: Final[object] = object()
 
 
 def _resolve(target: Union[str, Any]) -> Any:
@@ -44,17 +45,26 @@ def apply_patches(specs: list[PatchSpec]) -> Iterator[None]:
         for s in specs:
             tgt = _resolve(s.target)
             orig = getattr(tgt, s.attr, _MISSING)
+            restore = orig
+            if (
+                orig is not _MISSING
+                and isinstance(tgt, type)
+                and s.attr not in vars(tgt)
+            ):
+                # Inherited attribute: restore by removing the own entry, so a
+                # base-class patch's wrapper is never left behind on the subclass.
+                restore = _INHERITED
             if isinstance(s, AssignSpec):
                 setattr(tgt, s.attr, s.value)
             else:  # MonkeyPatchSpec
                 new_val = s.make_value(None if orig is _MISSING else orig)
                 setattr(tgt, s.attr, new_val)
-            applied.append((tgt, s.attr, orig))
+            applied.append((tgt, s.attr, restore))
         yield
     finally:
         # unwind in reverse order
         for tgt, attr, orig in reversed(applied):
-            if orig is _MISSING:
+            if orig is _MISSING or orig is _INHERITED:
                 try:
                     delattr(tgt, attr)
                 except Exception:
